@@ -76,7 +76,7 @@ func caseLess(a, b *caseT) bool {
 }
 
 func primaryKind(k string) bool {
-	return k == "single" || k == "valid" || k == "resigned" || k == "byzblock" || k == "framing" || k == "roundtrip" || k == "rehashed" || k == "second-claim" || k == "pol-sequence"
+	return k == "fetcher" || k == "single" || k == "valid" || k == "resigned" || k == "byzblock" || k == "framing" || k == "roundtrip" || k == "rehashed" || k == "second-claim" || k == "pol-sequence"
 }
 
 func finish(r *report.Run, us []*unit, results []*unitResult, deaths []deathRec, machinery []string, expired bool, tier string, target int, unitsDone int) {
@@ -138,6 +138,11 @@ func finish(r *report.Run, us []*unit, results []*unitResult, deaths []deathRec,
 		for _, v := range res.Viols {
 			c := v.Case
 			gk := fmt.Sprintf("%s|%02x|%s|%s|%s|%s", c.Reactor, c.Ch, c.Msg, c.Field, c.Class, v.Oracle)
+			if c.Kind == "fetcher" {
+				// an explicit-state search reports one failure class per oracle, named after the shortest (then
+				// lexicographically first) failing event sequence
+				gk = fmt.Sprintf("%s|%02x|%s|%s|%s|%s", c.Reactor, c.Ch, c.Msg, "-", "*sequence*", v.Oracle)
+			}
 			if c.Kind == "coupled" {
 				// a coupled group is one failure class per (message, field group, oracle): the mutation class of the
 				// signature is the one of the minimal failing case (the enumeration is exhaustive and deterministic)
@@ -154,7 +159,7 @@ func finish(r *report.Run, us []*unit, results []*unitResult, deaths []deathRec,
 			g.Peers[c.Peer] = true
 			if caseLess(c, g.Case) {
 				g.Case, g.What = c, v.What
-				if c.Kind == "coupled" {
+				if c.Kind == "coupled" || c.Kind == "fetcher" {
 					g.Class = c.Class
 				}
 			}
@@ -401,6 +406,9 @@ func finish(r *report.Run, us []*unit, results []*unitResult, deaths []deathRec,
 	r.Set("contained_panics", containedTotal)
 	r.Set("contained_panic_sites", contained)
 	r.Set("cases_with_rejection_expected", notes["rejection-expected"])
+	r.Set("fetcher_sequences_executed", casesKind["txpool/fetcher"])
+	r.Set("fetcher_states_expanded_per_unit_sum", notes["fetcher-distinct-states"])
+	r.Set("fetcher_states_with_a_stale_origin_observed", notes["fetcher-stale-origin-states"])
 	r.Set("gossip_routine_runs", notes["gossip-runs"])
 	r.Set("gossip_messages_sent", notes["gossip-messages-sent"])
 	r.Set("cases", cases)
@@ -460,6 +468,10 @@ func finish(r *report.Run, us []*unit, results []*unitResult, deaths []deathRec,
 		r.Require(stages["conn:delivered"] > 0, "connection framing never delivered a message")
 		r.Require(notes["gossip-runs"] > 1000 && notes["gossip-messages-sent"] > 1000, "the gossip routines hardly ran / sent nothing")
 		r.Require(notes["rejection-expected"] > 100, "the rejection oracle was applied to fewer than 100 cases")
+		for _, st := range []string{"fetcher:waiting", "fetcher:queued", "fetcher:fetching", "fetcher:tx-added", "fetcher:idle"} {
+			r.Require(stages[st] > 0, "the fetcher search never reached stage "+st)
+		}
+		r.Require(notes["fetcher-distinct-states"] > 500, "the fetcher search expanded fewer than 500 states")
 		r.Require(stages["roundtrip-ok"] >= 24, "fewer than 24 message types went through the encode/decode round trip")
 	}
 	fmt.Printf("summary: tier=%s deliveries=%d cases=%d distinct_nontrivial=%d contained_panics=%d worker_deaths=%d units=%d/%d node_builds=%d\n", tier, r.Get("evaluations"), cases,
